@@ -8,7 +8,8 @@ use serde_json::{json, Value};
 use std::io::{Cursor, Write};
 
 pub fn cls_char(c: &str) -> char {
-    match c { "latin1" => 'é', o => crate::props::xlsx_strings::class_char(o) }
+    // "bom": U+FEFF is an ordinary character of a cell text (no byte-order-mark sniffing)
+    match c { "latin1" => 'é', "bom" => '\u{feff}', o => crate::props::xlsx_strings::class_char(o) }
 }
 
 /// returns the text found in cell (0,0)
@@ -79,7 +80,7 @@ pub fn drive(args: &Args) -> i32 {
     let maxlen = args.num("maxlen", 3000) as usize;
     let mut rng = StdRng::seed_from_u64(args.seed() ^ 0xB19);
     let mut out = std::io::BufWriter::new(std::fs::File::create(args.req("out")).unwrap());
-    let classes = ["a", "amp", "quot", "sp", "tab", "nl", "latin1", "cjk", "astral"];
+    let classes = ["a", "amp", "quot", "sp", "tab", "nl", "latin1", "cjk", "astral", "bom"];
     for run in 0..n {
         let fmt = ["xlsb", "xls"][rng.gen_range(0..2)];
         let store = ["cell", "shared", "fstr"][rng.gen_range(0..3)];
@@ -95,7 +96,7 @@ pub fn drive(args: &Args) -> i32 {
         let cfg = json!({"fmt": fmt, "store": store, "high": high, "pre": if store == "shared" { rng.gen_range(0..3) } else { 0 }});
         let got = catch(|| store_and_read(&text, &cfg));
         let back: Value = match got {
-            Ok(Ok(Data::String(s))) => json!(s.chars().map(|c| match c { 'a' => "a", '&' => "amp", '"' => "quot", ' ' => "sp", '\t' => "tab", '\n' => "nl", 'é' => "latin1", '漢' => "cjk", '😀' => "astral", _ => "?" }).collect::<Vec<_>>()),
+            Ok(Ok(Data::String(s))) => json!(s.chars().map(|c| match c { 'a' => "a", '&' => "amp", '"' => "quot", ' ' => "sp", '\t' => "tab", '\n' => "nl", 'é' => "latin1", '漢' => "cjk", '😀' => "astral", '\u{feff}' => "bom", _ => "?" }).collect::<Vec<_>>()),
             o => json!([format!("{:?}", o)]),
         };
         writeln!(out, "{}", json!({"e": "text", "run": run, "cfg": cfg, "chars": cls, "observed": back})).unwrap();
